@@ -17,6 +17,7 @@ import LinVerif.Lemmas.C14Facts
 import LinVerif.Lemmas.C14Stream
 import LinVerif.Lemmas.C14Pool
 import LinVerif.Lemmas.C14BufAlias
+import LinVerif.Lemmas.C14StreamExt
 
 namespace LinVerif.Props.C14
 open LinVerif LinVerif.Bits LinVerif.Varint
@@ -801,6 +802,94 @@ theorem tsd_stream_roundtrip (s e : Nat) (fs : List Stream.Field) (pooled : Dec)
   exact tsd_decoder_reset_range_eq_fresh d0 _ s e
 
 end StreamCodec
+
+/-! ## 7g. the rest of pkg/stream (signed fixed-width fields, put sequences, SliceWriter, SeekStart) and the
+exported helpers `DecodeTSDTime`, `ByteSlice2Uint32` -/
+
+section StreamExt
+open LinVerif.Stream
+
+/-- **Any sequence of puts reads back.** Every list of `PutByte/PutBytes/PutUInt16/PutUint32/PutUint64/
+PutInt16/PutInt32/PutInt64/PutUvarint64/PutVarint64` (values representable in the Go types) written by one
+`BufferWriter`, whatever follows in the buffer: the reads of the same shapes return the values in order, without
+error, and leave exactly what followed. -/
+theorem stream_put_sequence_roundtrip (ps : List Put) (rest : List Nat) (hok : ∀ p ∈ ps, p.ok) :
+    (Stream.Reader.fresh ((ps.foldl Stream.Writer.put Stream.Writer.fresh).buf ++ rest)).readAllLike ps
+      = (ps, ⟨(ps.foldl Stream.Writer.put Stream.Writer.fresh).buf ++ rest, rest, .none⟩) := by
+  have hb : (ps.foldl Stream.Writer.put Stream.Writer.fresh).buf = ps.flatMap Put.enc := by
+    rw [puts_buf]; simp [Stream.Writer.fresh]
+  rw [hb]
+  exact readAllLike_puts _ ps rest hok
+
+/-- two's complement fixed-width fields: every `int16`, `int32`, `int64` -/
+theorem stream_signed_fixed_roundtrip (orig rest : List Nat) (a b c : Int)
+    (ha : -(2 ^ 15 : Int) ≤ a ∧ a < 2 ^ 15) (hb : -(2 ^ 31 : Int) ≤ b ∧ b < 2 ^ 31) (hc : -(2 ^ 63 : Int) ≤ c ∧ c < 2 ^ 63) :
+    (⟨orig, (Stream.Writer.fresh.putInt16 a).buf ++ rest, .none⟩ : Stream.Reader).readInt16 = (a, ⟨orig, rest, .none⟩) ∧
+    (⟨orig, (Stream.Writer.fresh.putInt32 b).buf ++ rest, .none⟩ : Stream.Reader).readInt32 = (b, ⟨orig, rest, .none⟩) ∧
+    (⟨orig, (Stream.Writer.fresh.putInt64 c).buf ++ rest, .none⟩ : Stream.Reader).readInt64 = (c, ⟨orig, rest, .none⟩) := by
+  have h1 := readLike_put orig rest (.i16 a) (by simpa [Put.ok] using ha)
+  have h2 := readLike_put orig rest (.i32 b) (by simpa [Put.ok, two31] using hb)
+  have h3 := readLike_put orig rest (.i64 c) (by simpa [Put.ok, two63] using hc)
+  simp only [Stream.Reader.readLike, Put.enc, Prod.mk.injEq, Put.i16.injEq, Put.i32.injEq, Put.i64.injEq] at h1 h2 h3
+  refine ⟨?_, ?_, ?_⟩
+  · exact Prod.ext h1.1 h1.2
+  · exact Prod.ext h2.1 h2.2
+  · exact Prod.ext h3.1 h3.2
+
+/-- **SliceWriter.** After any list of puts: `Bytes()` is everything that was put, `Error()` is non-nil exactly
+when more than `len(buffer)` bytes were put, and as long as it is nil the caller's array holds the puts in
+front of its old tail (same length). -/
+theorem slicewriter_error_iff_overflow (maxLen : Nat) (ps : List Put) (init : List Nat) (hinit : init.length = maxLen) :
+    ((SliceWriter.new maxLen).puts ps).w.buf = ps.flatMap Put.enc ∧
+    (((SliceWriter.new maxLen).puts ps).error = true ↔ (ps.flatMap Put.enc).length > maxLen) ∧
+    (((SliceWriter.new maxLen).puts ps).error = false → ∃ arr, ((SliceWriter.new maxLen).puts ps).backing init = some arr ∧
+      arr.length = maxLen ∧ arr.take (ps.flatMap Put.enc).length = ps.flatMap Put.enc) := by
+  have hb : ((SliceWriter.new maxLen).puts ps).w.buf = ps.flatMap Put.enc := by
+    simp [SliceWriter.puts, SliceWriter.new, puts_buf, Stream.Writer.fresh]
+  have hm : ((SliceWriter.new maxLen).puts ps).maxLen = maxLen := rfl
+  refine ⟨hb, ?_, ?_⟩
+  · simp [SliceWriter.error, hb, hm]
+  · intro he
+    have hle : (ps.flatMap Put.enc).length ≤ maxLen := by
+      simpa [SliceWriter.error, hb, hm] using he
+    refine ⟨ps.flatMap Put.enc ++ init.drop (ps.flatMap Put.enc).length, ?_, ?_, ?_⟩
+    · simp [SliceWriter.backing, he, hb]
+    · simp only [List.length_append, List.length_drop, hinit]; omega
+    · simp
+
+/-- `SeekStart()` from ANY reader state (pending error, exhausted, mid-buffer) is the freshly armed reader -/
+theorem stream_seek_start_eq_fresh (r : Stream.Reader) : r.seekStart = Stream.Reader.fresh r.orig :=
+  seekStart_eq r
+
+/-- `DecodeTSDTime(enc.Bytes())` is the encoder's slot range `[start, start+count-1]` -/
+theorem tsd_decode_time_of_bytes (e : Tsd.Enc) (bs : List Nat) (hs : e.startTime < 65536)
+    (h : e.bytes.1 = some bs) :
+    Tsd.decodeTSDTime bs = some (e.startTime, Tsd.u16 (e.startTime + e.count + 65535)) := by
+  unfold Tsd.Enc.bytes at h
+  simp only at h
+  split at h
+  · cases h
+  · simp only [Option.some.injEq] at h
+    subst h
+    have hlen : ¬ (Tsd.le16 e.startTime ++ Tsd.le16 (Tsd.u16 (e.startTime + e.count + 65535)) ++ e.w.flush.out).length < 4 := by
+      simp [Tsd.le16]
+    rw [Tsd.decodeTSDTime, if_neg hlen, List.append_assoc, Tsd.rd16_le16_0 _ _ hs,
+      Tsd.rd16_le16_2 _ _ _ (by unfold Tsd.u16; omega)]
+
+/-- `DecodeTSDTime` panics on fewer than four bytes (stated guard) -/
+theorem tsd_decode_time_guard (bs : List Nat) (h : bs.length < 4) : Tsd.decodeTSDTime bs = none := by
+  simp [Tsd.decodeTSDTime, h]
+
+/-- `ByteSlice2Uint32` inverts the `width`-byte little-endian cells of the fixed-offset table -/
+theorem byteslice2uint32_roundtrip (w v : Nat) (hw : 1 ≤ w ∧ w ≤ 4) (hv : v < 256 ^ w) :
+    FixedOffset.byteSlice2Uint32 (FixedOffset.leBytes w v) = v :=
+  FixedOffset.byteSlice2Uint32_leBytes w v hw hv
+
+example : ((Stream.Reader.fresh ((([Put.i16 (-2), .bytes [7, 8], .sv (-300), .u64 5, .i64 (-1)]).foldl Stream.Writer.put
+    Stream.Writer.fresh).buf)).readAllLike [Put.i16 0, .bytes [0, 0], .sv 0, .u64 0, .i64 0]).1
+    = [Put.i16 (-2), .bytes [7, 8], .sv (-300), .u64 5, .i64 (-1)] := by decide
+
+end StreamExt
 
 /-! ## 7f. aborted use, decode-into-any-target, width of the delta codec, views of internal buffers -/
 
